@@ -50,6 +50,19 @@ func (m *noFailMonitor) AfterStep(rc *RunCtx, i int, st *Step, res *StepResult) 
 	if _, ex := rc.Excluded[st.C]; ex {
 		return nil // the server ended this client's session on its own; the SDK finds out by failing
 	}
+	if i < len(rc.Trace) && rc.Trace[i].Op == "par" && st.Op != "par" {
+		// inside a parallel section the housekeeping task may end a silent client's
+		// session between two of its calls (and the client may then deactivate itself,
+		// so that afterwards nothing tells the two apart): being told so is legitimate
+		for _, sub := range rc.Trace[i].Sub {
+			if sub.Op == "housekeeping" && sub.Flag == "deactivate" {
+				if msg := res.Err.Error(); strings.Contains(msg, "not attached") || strings.Contains(msg, "not activated") || strings.Contains(msg, "not active") {
+					rc.W.probe("session_ended_by_housekeeping_inside_section")
+					return nil
+				}
+			}
+		}
+	}
 	faulted := st.Net != "" || st.DB != nil
 	cls := classify(res.Err)
 	if faulted && (cls == "net" || cls == "crash" || cls == "injected") {
